@@ -196,7 +196,30 @@ fn case<S: Shape>(spec: &AnimSpec, st: usize, r: &mut Rng, acc: &mut Acc, stream
         } else if ended_at.is_none() && !band {
             ended_at = Some(k);
             rest = Some(real.current_values().clone());
-            // equal to the terminal values of the timeline
+            // equal to the terminal values of the timeline: by the configuration (last frame of each property, first
+            // frame when reversing, later components over earlier ones) ...
+            if k >= entry && total.map(|t| t.is_finite()).unwrap_or(false) {
+                for f in 0..S::N_ANIM {
+                    let mut want: Option<f64> = None;
+                    for comp in &spec.states[st] {
+                        if comp.defines(f) {
+                            let fr = crate::model::frames(comp, f);
+                            want = if comp.reverse { fr.first().map(|x| x.val) } else { fr.last().map(|x| x.val) };
+                        }
+                    }
+                    if let Some(w) = want {
+                        if !crate::model::agrees_exact(S::KINDS[f], real.current_values().get(f), w) {
+                            acc.violation(
+                                "c07:terminal-values-by-configuration",
+                                format!("is_ended() became true at op #{k} but field {} is {} where the configured terminal value ({}) is {w}", S::FIELDS[f], real.current_values().get(f), if spec.states[st].iter().any(|c| c.reverse) { "0 % of a reversing component / 100 %" } else { "100 %" }),
+                                case(k, "values rest at the terminal values"),
+                            );
+                            return;
+                        }
+                    }
+                }
+            }
+            // ... and by a twin timeline evaluated far beyond the end
             if let Some(term) = model.terminal() {
                 if !same_all(&term, real.current_values()) && k >= entry {
                     // entering an already-ended situation only happens via advance; at the set_state
